@@ -1,4 +1,5 @@
 import Tickit.Model.WinFocus
+import Tickit.Proof.WinFocus
 import Tickit.Driver.Common
 import Tickit.Gen.WinFocusSrc
 /-
@@ -374,6 +375,11 @@ def step (st : St) (ts : List String) (impl : String) : St × String × String :
              | some b, some a, some id => specFocus b a id
              | _, _, _ => if impl.startsWith "ok" then "unparsable implementation observation" else "")
           | _ => ""
+        -- the hypothesis of the theorems, evaluated on every tree the real library is observed in
+        let sv := if sv ≠ "" then sv else
+          match parseImpl impl with
+          | some o => if wfB o.tree then "" else "the observed tree violates the store invariant wfB (parent/children consistency, chain_visible)"
+          | none => ""
         ({ st' with prev := impl }, m, sv)
 
 def engine : Engine := { σ := St, init := {}, step := step }
